@@ -97,7 +97,7 @@ def run_jobs(jobs, workers, wall_cap, per_job_dump=None):
 
 def aggregate(results):
     agg = dict(runs=0, stats=collections.Counter(), states=set(), plan_digests=set(), violations=[],
-               known_hits=collections.Counter(), harness_errors=[], samples=[], digests={},
+               known_hits=collections.Counter(), harness_errors=[], samples=[], digests={}, groups={},
                sim=dict(clock_reads=0, uuid4=0, min=None, max=None), hash_seeds=set(), stopped_early=False,
                worker_wall=0.0, missing=0)
     for r in results:
@@ -111,6 +111,7 @@ def aggregate(results):
         agg['harness_errors'].extend(r['harness_errors'])
         agg['samples'].extend(r['samples'])
         agg['digests'].update(r['digests'])
+        agg['groups'].update(r.get('groups', {}))
         agg['hash_seeds'].add(r['hash_seed'])
         agg['stopped_early'] = agg['stopped_early'] or r['stopped_early']
         agg['worker_wall'] += r['wall_s']
@@ -123,6 +124,34 @@ def aggregate(results):
     agg['samples'].sort(key=lambda s: (len(s['plan']['ops']), s['run_index']))
     agg['violations'].sort(key=lambda v: v['run_index'])
     return agg
+
+
+def cross_process_check(profile, prop, tier, base_seed, agg):
+    """Runs of one group hold the same workload and executed in interpreters with different PYTHONHASHSEED:
+    their group observations must be identical.  A difference is reported as a violation with a replay file."""
+    group_of = getattr(profile, 'group_of', None)
+    if group_of is None:
+        return 0
+    by = collections.defaultdict(dict)
+    for idx, dg in agg['groups'].items():
+        by[group_of(int(idx))][int(idx)] = dg
+    compared = 0
+    hs = core.hash_seeds_of(base_seed)
+    for g, members in sorted(by.items()):
+        if len(members) < 2:
+            continue
+        compared += 1
+        if len(set(members.values())) > 1:
+            idx = sorted(members)
+            rs, plan = core.plan_for(profile, base_seed, tier, idx[0])
+            viol = dict(oracle='cross-process', signature='%s.cross-process-observations-differ' % prop, op_index=-1,
+                        detail=dict(run_indices=idx, digests=[members[i] for i in idx]))
+            meta = dict(base_seed=base_seed, tier=tier, run_index=idx[0], run_seed=rs, hash_seed=str(hs[idx[0] % 4]),
+                        hash_seeds=[str(hs[i % 4]) for i in idx], cross_process=True)
+            path = core.write_replay(prop, meta, plan, viol, None)
+            agg['violations'].append(dict(run_index=idx[0], run_seed=rs, signature=viol['signature'], oracle='cross-process',
+                                          replay=path, detail=viol['detail'], ops=len(plan['ops'])))
+    return compared
 
 
 def check(prop, tier, base_seed=None, workers=None, nruns=None, quiet=False):
@@ -138,6 +167,7 @@ def check(prop, tier, base_seed=None, workers=None, nruns=None, quiet=False):
     results, errors = run_jobs(jobs, workers, wall_cap)
     agg = aggregate(results)
     known = core.load_known()
+    cross = cross_process_check(profile, prop, tier, base_seed, agg)
     wall = time.time() - t0
 
     stats = agg['stats']
@@ -170,6 +200,7 @@ def check(prop, tier, base_seed=None, workers=None, nruns=None, quiet=False):
             hash_seeds=sorted(agg['hash_seeds']), workers=workers,
             components=profile.components,
             known_findings_hit=dict(agg['known_hits']),
+            cross_process_groups_compared=cross,
             harness_errors=len(errors) + len(agg['harness_errors']),
         ),
         assumptions=profile.assumptions,
@@ -216,6 +247,29 @@ def replay(path, quiet=False):
     """Re-execute a replay file in a fresh interpreter under the recorded hash seed."""
     with open(path) as f:
         doc = json.load(f)
+    if doc.get('cross_process') and os.environ.get('VERIF_REPLAY_CHILD') != '1':
+        outs = []
+        for hsd in doc.get('hash_seeds', [])[:4]:
+            env = _env(hsd)
+            env['VERIF_REPLAY_CHILD'] = '1'
+            env['VERIF_REPLAY_GROUP'] = '1'
+            p = subprocess.run([PY, os.path.join(core.VERIF_DIR, 'check'), 'replay', path], env=env, cwd=core.VERIF_DIR,
+                               capture_output=True, text=True)
+            outs.append(p.stdout.strip().splitlines()[-1] if p.stdout.strip() else 'no output')
+        if len(set(outs)) > 1:
+            print('VIOLATION property=%s replay=%s' % (doc['property'], path))
+            print('  reproduced: oracle=cross-process signature=%s' % doc['violation']['signature'])
+            for hsd, o in zip(doc.get('hash_seeds', []), outs):
+                print('  PYTHONHASHSEED=%s -> %s' % (hsd, o))
+            return 1
+        print('replay did NOT reproduce a cross-process difference: %s' % outs[:1])
+        return 0
+    if os.environ.get('VERIF_REPLAY_GROUP') == '1':
+        core.import_repo()
+        profile = core.get_profile(doc['property'])
+        res = core.execute(profile, doc['plan'])
+        print('group-digest %s verdict=%s' % (res.group_digest, res.verdict))
+        return 0
     if os.environ.get('VERIF_REPLAY_CHILD') != '1':
         env = _env(doc.get('hash_seed') or 0)
         env['VERIF_REPLAY_CHILD'] = '1'
